@@ -1,0 +1,60 @@
+//go:build verif
+
+// Contracts for govc (contract-based deductive verification, see /verif/DESIGN.md).
+// This file contains comments only; it is compiled only with -tags=verif and adds no code.
+
+package symbols
+
+//@ package symbols
+//@
+//@ # C10: the symbol table is a bijection between names and consecutive numbers
+//@ spec symOK(this *Symbols) bool = this != nil && this.idMap != nil
+//@   | && all(i, 0, len(this.typeMap), has(this.idMap, this.typeMap[i]) && this.idMap[this.typeMap[i]] == i)
+//@   | && forallS(s, imp(has(this.idMap, s), 0 <= this.idMap[s] && this.idMap[s] < len(this.typeMap) && this.typeMap[this.idMap[s]] == s))
+//@
+//@ func (*Symbols).Add
+//@   prop C10
+//@   requires [ok] symOK(this)
+//@   requires [noalias] arr(symbols) != arr(this.typeMap)
+//@   ensures [ok] symOK(this)
+//@   ensures [kept] len(this.typeMap) >= old(len(this.typeMap)) && all(i, 0, old(len(this.typeMap)), this.typeMap[i] == old(this.typeMap[i]))
+//@   ensures [added] all(j, 0, len(symbols), has(this.idMap, symbols[j]))
+//@   ensures [only] all(i, old(len(this.typeMap)), len(this.typeMap), some(j, 0, len(symbols), symbols[j] == this.typeMap[i]))
+//@   assigns this.typeMap, elems(this.typeMap), everything
+//@   loop 1
+//@     invariant [noalias] arr(symbols) != arr(this.typeMap)
+//@     invariant [ok] symOK(this)
+//@     invariant [kept] len(this.typeMap) >= old(len(this.typeMap)) && all(i, 0, old(len(this.typeMap)), this.typeMap[i] == old(this.typeMap[i]))
+//@     invariant [added] all(j, 0, range_i1, has(this.idMap, symbols[j]))
+//@     invariant [only] all(i, old(len(this.typeMap)), len(this.typeMap), some(j, 0, range_i1, symbols[j] == this.typeMap[i]))
+//@
+//@ func (*Symbols).Type
+//@   prop C10
+//@   requires [this] this != nil
+//@   ensures [hit] imp(has(this.idMap, id), result == this.idMap[id])
+//@   ensures [miss] imp(!has(this.idMap, id), result == 0-1)
+//@   assigns nothing
+//@
+//@ func (*Symbols).IsTerminal
+//@   prop C10
+//@   requires [this] this != nil
+//@   ensures [value] result == !has(this.ntIdMap, sym)
+//@   assigns nothing
+//@
+//@ func (*Symbols).ListTerminals
+//@   prop C10
+//@   requires [ok] symOK(this)
+//@   # an order-preserving, duplicate-free list of exactly the symbols that are not production names
+//@   ensures [terminals] all(j, 0, len(result), has(this.idMap, result[j]) && !has(this.ntIdMap, result[j]))
+//@   ensures [ordered] all(j, 0, len(result)-1, this.idMap[result[j]] < this.idMap[result[j+1]])
+//@   ensures [complete] all(i, 0, len(this.typeMap), imp(!has(this.ntIdMap, this.typeMap[i]), some(j, 0, len(result), result[j] == this.typeMap[i])))
+//@   # INVALID and end-of-input keep the numbers 0 and 1 unless the grammar uses them as production names
+//@   ensures [reserved] imp(len(this.typeMap) >= 2 && !has(this.ntIdMap, this.typeMap[0]) && !has(this.ntIdMap, this.typeMap[1]), len(result) >= 2 && result[0] == this.typeMap[0] && result[1] == this.typeMap[1])
+//@   assigns nothing
+//@   loop 1
+//@     invariant [fresh] arr(terminals) >= old(alloc())
+//@     invariant [terminals] all(j, 0, len(terminals), has(this.idMap, terminals[j]) && !has(this.ntIdMap, terminals[j]) && this.idMap[terminals[j]] < range_i1)
+//@     invariant [ordered] all(j, 0, len(terminals)-1, this.idMap[terminals[j]] < this.idMap[terminals[j+1]])
+//@     invariant [complete] all(i, 0, range_i1, imp(!has(this.ntIdMap, this.typeMap[i]), some(j, 0, len(terminals), terminals[j] == this.typeMap[i])))
+//@     invariant [reserved] imp(range_i1 >= 1 && !has(this.ntIdMap, this.typeMap[0]), len(terminals) >= 1 && terminals[0] == this.typeMap[0])
+//@       | && imp(range_i1 >= 2 && !has(this.ntIdMap, this.typeMap[0]) && !has(this.ntIdMap, this.typeMap[1]), len(terminals) >= 2 && terminals[1] == this.typeMap[1])
